@@ -236,3 +236,156 @@ def run_submit(case):
         for m, t in saved:
             m.time = t
     return res
+
+
+# ------------------------------------------------------------------------------
+# wait calls next to a kill request in flight: PilotManager.kill_pilots (used by close() and
+# by applications) publishes the request and waits for it to be enacted.  While it waits, the
+# state subscriber must be able to deliver the final state, and a wait call of another thread
+# keeps its own bounds.
+#
+@st.composite
+def kill_cases(draw):
+    return {'kind': 'kill_in_flight',
+            'n': draw(st.integers(1, 3)),
+            'kill_timeout': draw(st.sampled_from([2.0, 4.0, 10.0])),
+            'enacted_after': draw(st.sampled_from([0.05, 0.3, 0.7, 1.5])),    # launcher reports CANCELED
+            'waiter': draw(st.sampled_from(['wait_pilots', 'pilot_wait', 'none'])),
+            'wait_timeout': draw(st.sampled_from([0.5, 1.0, 3.0])),
+            'awaited': draw(st.sampled_from(['killed', 'all']))}
+
+
+def run_kill(case):
+    res = CaseResult()
+    res.label('kill_in_flight', 'kill_in_flight:waiter=%s' % case.get('waiter'))
+    baton = Baton()
+    n     = max(1, min(3, int(case.get('n') or 1)))
+    sess  = HollowSession()
+    T     = float(case.get('kill_timeout') or 4.0)
+    d     = float(case.get('enacted_after') or 0.3)
+    wt    = float(case.get('wait_timeout') or 1.0)
+    p     = 0.1                                      # poll interval of the wait loops
+    saved = [(m, m.time) for m in (m_pmgr, m_pilot)]
+
+    class _Clock(object):
+        """virtual clock: a sleeping activity is not runnable until its wake-up time; time passes
+        only when nothing can run"""
+        wake = {}
+
+        def time(self):
+            return baton.now
+
+        def sleep(self, dt):
+            ct = baton.current()
+            if ct is not None:
+                self.wake[ct.name] = baton.now + max(float(dt), 0.0)
+            baton.yield_point('sleep')
+
+        def __getattr__(self, name):
+            import time as _t
+            return getattr(_t, name)
+    clock = _Clock()
+    clock.wake = {}
+    try:
+        for m, _ in saved:
+            m.time = clock
+        mgr  = hollow_pmgr(sess)
+        ents = [add_pilot(mgr, 'pilot.%04d' % i) for i in range(n)]
+        for e in ents:
+            mgr._update_pilot({'uid': e.uid, 'type': 'pilot', 'state': rps.PMGR_ACTIVE})
+        _swap_locks(mgr, baton)
+        victim = ents[0]
+        out, t_ret = {}, {}
+        t0 = baton.now
+
+        def killer():
+            mgr.kill_pilots(victim.uid, _timeout=T)
+            t_ret['kill'] = baton.now
+
+        def notifier():
+            mgr._update_pilot({'uid': victim.uid, 'type': 'pilot', 'state': rps.CANCELED})
+            t_ret['notify'] = baton.now
+
+        def waiter():
+            if case.get('waiter') == 'pilot_wait':
+                out['ret'] = victim.wait(timeout=wt)
+            else:
+                uids = [victim.uid] if case.get('awaited') != 'all' else [e.uid for e in ents]
+                out['ret'] = mgr.wait_pilots(uids, timeout=wt)
+            t_ret['wait'] = baton.now
+            out['state_then'] = victim.state
+
+        baton.spawn('killer', killer)
+        names = ['killer']
+        if case.get('waiter') in ('wait_pilots', 'pilot_wait'):
+            baton.spawn('waiter', waiter)
+            names.append('waiter')
+        notif = False
+
+        def runnable(nm):
+            b = getattr(baton.threads[nm], 'blocked', None)
+            if b is not None and b.held():
+                return False
+            return clock.wake.get(nm, 0) <= baton.now
+
+        for _ in range(6000):
+            if not notif and baton.now - t0 >= d:
+                baton.spawn('notifier', notifier)
+                names.append('notifier')
+                notif = True
+            live = [nm for nm in names if not baton.threads[nm].done]
+            if not live:
+                break
+            run = [nm for nm in live if runnable(nm)]
+            if 'notifier' in run:
+                run = ['notifier']                    # the subscriber delivers at once if nothing holds it up
+            if run:
+                for nm in run:
+                    baton.resume(nm)
+                continue
+            # everybody sleeps or waits for a lock: time passes up to the next wake-up / event
+            wakes = [clock.wake[nm] for nm in live if clock.wake.get(nm, 0) > baton.now]
+            if not notif:
+                wakes.append(t0 + d)
+            if not wakes:
+                res.fail('kill_in_flight:deadlock', 'no activity can proceed at virtual time %.2f: %s'
+                         % (baton.now - t0, live))
+                break
+            baton.now = min(wakes)
+            if baton.now - t0 > T + d + wt + 30:
+                break
+        res.nontrivial = True
+        for nm in names:
+            ct = baton.threads[nm]
+            if ct.done and ct.exc is not None:
+                res.fail(exc_sig('kill_in_flight:%s_raised' % nm, ct.exc), repr(ct.exc))
+        # the notification is applied when it arrives, not when the kill call gives up
+        if 'notify' not in t_ret or t_ret['notify'] - t0 > d + 3 * p:
+            res.fail('kill_in_flight:notification_held_back',
+                     'CANCELED arrived at %.2f, applied at %s (kill_pilots timeout %.1f)'
+                     % (d, '%.2f' % (t_ret['notify'] - t0) if 'notify' in t_ret else 'never', T))
+        # kill_pilots waits for the kill to be enacted: back shortly after that
+        if 'kill' not in t_ret or t_ret['kill'] - t0 > min(d, T) + 3 * p:
+            res.fail('kill_in_flight:kill_pilots_returns_late',
+                     'enacted at %.2f, timeout %.1f, returned at %s'
+                     % (d, T, '%.2f' % (t_ret['kill'] - t0) if 'kill' in t_ret else 'never'))
+        if 'waiter' in names:
+            due = wt if (case.get('waiter') == 'wait_pilots' and case.get('awaited') == 'all' and n > 1) \
+                else min(d, wt)
+            if 'wait' not in t_ret or t_ret['wait'] - t0 > due + 3 * p:
+                res.fail('kill_in_flight:%s_returns_late' % case.get('waiter'),
+                         'awaited pilot final at %.2f, timeout %.1f, returned at %s'
+                         % (d, wt, '%.2f' % (t_ret['wait'] - t0) if 'wait' in t_ret else 'never'))
+            elif case.get('waiter') == 'wait_pilots' and out.get('ret') and \
+                    out['ret'][0] != out.get('state_then'):
+                res.fail('kill_in_flight:wait_pilots_untruthful', '%s vs %s' % (out['ret'], out.get('state_then')))
+        if d < wt:
+            res.label('kill_in_flight:enacted_before_wait_timeout')
+    finally:
+        try:
+            baton.finish_all()
+        except Exception:
+            pass
+        for m, t in saved:
+            m.time = t
+    return res
